@@ -2880,8 +2880,8 @@ def mpf2multiword(dtype, x, p=None, max_length=None):
     result = []
     offset = max(bl - p, 0)
     if max_length is not None and max_length == 1:
-        result.append(mpf2float(dtype, x))
-        offset = 0
+        # a single word holds the rounded value
+        return [mpf2float(dtype, x)]
     while True:
         man1 = (man & (mask << offset)) >> offset
         bl1 = man1.bit_length()
